@@ -1187,8 +1187,12 @@ func runRpcCase(c RpcCase) RpcEv {
 	if ev.ReqWant == nil {
 		ev.ReqWant = MD{}
 	}
-	if c.Proto == "ws" {
-		e.runWs(&ev)
+	if c.Proto == "ws" || c.Proto == "grpcsock" {
+		if c.Proto == "ws" {
+			e.runWs(&ev)
+		} else {
+			e.runGrpcSock(&ev)
+		}
 		e.mu.Lock()
 		ev.H = e.h
 		ev.Stats = append(ev.Stats, e.stats...)
